@@ -431,10 +431,6 @@ def run(cx):
     r = cx.rule("C01-CHILD", "control-flow arms emit every child block exactly once, in declaration order, with one header per branch/handler; the promotion rewriter rebuilds every child block", floor=12)
     S = cls["Sleep"]
     B = cls["ConditionalBranch"]
-    prog_if = cls["IfStatement"](branches=[B(condition="H_a", body=[S(ms=1)]), B(condition="H_b", body=[]), B(condition="H_c", body=[S(ms=3)])], else_body=[S(ms=4)])
-    res = pe.emit_program(setup=[prog_if, S(ms=9)], loop=[])
-    body = l2.functions_of(res.text, ["setup"])["setup"][0]["body"]
-
     def if_chain(st):
         out = []
         while st is not None and st["k"] == "if":
@@ -442,15 +438,27 @@ def run(cx):
             els = st["else"]
             if els and len(els) == 1 and els[0]["k"] == "if":
                 st = els[0]
+            elif els is None:
+                st = None
             else:
                 out.append(("else", [show(c) for c in all_calls(els or [])]))
                 st = None
         return out
 
-    chain = if_chain(body[0]) if body and body[0]["k"] == "if" else None
-    want = [("H_a", ["delay(1)"]), ("H_b", []), ("H_c", ["delay(3)"]), ("else", ["delay(4)"])]
-    r.check(chain == want, "IfStatement/one-header-per-branch-in-order", (em, eb), f"if/elif/elif/else with an empty middle branch is emitted as {chain}; expected {want} (dropping an empty elif lets later branches fire for its values)")
-    r.check(len(body) == 2 and show(body[1]["e"]) == "delay(9)", "IfStatement/following-statement-after-the-chain", (em, eb), "statement after the if-chain misplaced")
+    # every emptiness pattern of a three-branch chain, with and without else: an empty branch keeps its header (dropping
+    # it lets a later branch or the else fire for its values)
+    import itertools as _it
+    for mask in _it.product((False, True), repeat=3):
+        for with_else in (False, True):
+            brs = [B(condition=f"H_{c_}", body=([] if e_ else [S(ms=i_ + 1)])) for i_, (c_, e_) in enumerate(zip("abc", mask))]
+            prog_if = cls["IfStatement"](branches=brs, else_body=[S(ms=4)] if with_else else [])
+            res = pe.emit_program(setup=[prog_if, S(ms=9)], loop=[])
+            body = l2.functions_of(res.text, ["setup"])["setup"][0]["body"]
+            chain = if_chain(body[0]) if body and body[0]["k"] == "if" else None
+            want = [(f"H_{c_}", [] if e_ else [f"delay({i_ + 1})"]) for i_, (c_, e_) in enumerate(zip("abc", mask))] + ([("else", ["delay(4)"])] if with_else else [])
+            tag = "".join("e" if e_ else "s" for e_ in mask) + ("+else" if with_else else "")
+            r.check(chain == want, f"IfStatement/one-header-per-branch-in-order[{tag}]", (em, eb), f"if/elif/elif{'/else' if with_else else ''} with empty branches {tag} is emitted as {chain}; expected {want} (dropping an empty elif lets later branches fire for its values)")
+            r.check(len(body) == 2 and show(body[1]["e"]) == "delay(9)", f"IfStatement/following-statement-after-the-chain[{tag}]", (em, eb), "statement after the if-chain misplaced")
     res = pe.emit_program(setup=[cls["IfStatement"](branches=[B(condition="H_a", body=[S(ms=1)])], else_body=[])], loop=[])
     body = l2.functions_of(res.text, ["setup"])["setup"][0]["body"]
     r.check(len(body) == 1 and body[0]["k"] == "if" and body[0]["else"] is None, "IfStatement/no-else-when-absent", (em, eb), "an if without else must not get an else block")
@@ -480,44 +488,46 @@ def run(cx):
             r.check(bool(ends) and all("E" in alt for alt in ends), f"_emit_block/for[{norm(n.iter)}]-emits-every-iteration", (em, n), f"an iteration over {norm(n.iter)} can finish without emitting its block header: that branch/handler would vanish from the firmware")
 
     # ---- C01-ARM-EMITS -----------------------------------------------------------------------
-    r = cx.rule("C01-ARM-EMITS", "every emitter arm appends at least one line on every path, or leaves through one of the documented guards (undeclared device, empty pattern, global declaration, declaration bookkeeping, no backlight pin)", floor=60)
-    loop = None
-    for st in eb.body:
-        if isinstance(st, ast.For) and norm(st.iter) == "nodes":
-            loop = st
-    if loop is None:
-        raise AnalysisError("_emit_block main loop not found")
-    n_arms = 0
-    for st in loop.body:
-        if not (isinstance(st, ast.If) and "isinstance(node, " in norm(st.test)):
+    # decided by evaluation: every IR action class, in every field-type variant (each Union alternative, both booleans, the
+    # 0 boundary, each LCD wiring), is emitted after its declaration and the sketch must differ from the sketch without the
+    # statement - unless the statement is one of the documented no-ops
+    r = cx.rule("C01-ARM-EMITS", "every statement node, in every field-type variant and LCD wiring, changes the emitted sketch (it cannot vanish from the firmware), except the documented no-ops: an empty flash pattern, message() without texts, backlight/brightness commands on a display without a backlight pin", floor=300, exhaustive=True)
+    from . import c06
+
+    def documented_noop(label, node):
+        cn = type(node).__name__
+        wiring = label[label.index("[") + 1:label.index("]")] if "[" in label else ""
+        if cn == "LedFlashPattern" and not list(node.pattern):
+            return "empty flash pattern: nothing to do"
+        if cn == "LCDMessage" and node.top is None and node.bottom is None:
+            return "message() without top and bottom text writes nothing on the host either"
+        if cn == "LCDBacklight" and wiring == "parallel":
+            return "LCD without a backlight pin: backlight commands are no-ops on both sides"
+        if cn == "LCDBrightness" and wiring in ("parallel", "i2c"):
+            return "no PWM backlight pin: brightness commands are no-ops on both sides"
+        return None
+
+    n_classes = set()
+    for label, setup_, loop_, _kw in c06.programs_for_schema("quick"):
+        seq = loop_ if loop_ else setup_
+        if not seq:
             continue
-        m_ = re.search(r"isinstance\(node, (\w+)\)", norm(st.test))
-        cname = m_.group(1) if m_ else "?"
-        n_arms += 1
-        an = ArmEffect(em, loop)
-        out = an.block(st.body, frozenset({frozenset()}))
-        exits = list(an.exits) + [(st, alt) for alt in (out.fall or [])]
-        for node_, alt in exits:
-            if "E" in alt:
-                r.ok(None)
-                continue
-            cs = {(f[1], f[2]) for f in alt if isinstance(f, tuple) and f[0] == "c"}
-            why = None
-            for t, tv, reason in SILENT_OK:
-                if (t, tv) in cs:
-                    why = reason
-            if why is None and cname == "IfStatement" and cs <= {("node.else_body", False)}:
-                why = "an if statement always has a first branch (parser invariant); per-branch emission is decided by C01-CHILD"
-            if why is None and cname == "LCDMessage" and ("node.top is not None", False) in cs and ("node.bottom is not None", False) in cs:
-                why = "message() without top and bottom text writes nothing on the host either"
-            if why is None and cname in DECL_BOOKKEEPING:
-                why = "declaration bookkeeping (configured by emit() pass 1 / dedup of pinMode)"
-            if why is None and any(("not in emitted_pin_modes" in t or "not in ultrasonic_pin_modes" in t) and not tv for t, tv in cs):
-                why = "pin mode already emitted"
-            r.check(why is not None, f"arm[{cname}]/silent-path", (em, node_), f"the {cname} arm can finish without emitting anything under {sorted(cs)[:4]}: the statement would vanish from the firmware", sample=f"{cname}: silent only when {why}")
-    if n_arms < 55:
-        raise AnalysisError(f"only {n_arms} emitter arms recognised")
-    # nothing after the last arm swallows unknown nodes silently is covered by C01-IR-EXH
+        node = seq[-1]
+        cn = type(node).__name__
+        if cn.endswith("Decl") and cn != "VarDecl":
+            continue
+        full = pe.emit_program(setup=setup_, loop=loop_)
+        if full.raised:
+            continue                       # refusals are C07's subject
+        base = pe.emit_program(setup=setup_[:-1], loop=[]) if not loop_ else pe.emit_program(setup=setup_, loop=loop_[:-1])
+        n_classes.add(cn)
+        if base.raised or full.text != base.text:
+            r.ok(cn)
+            continue
+        why = documented_noop(label, node)
+        r.check(why is not None, f"arm[{cn}]/silent[{label[len(cn):][:80]}]", (em, eb), f"`{label}` leaves the sketch unchanged: the statement would vanish from the firmware", sample=f"{cn}: silent only when {why}")
+    if len(n_classes) < 40:
+        raise AnalysisError(f"only {len(n_classes)} statement classes were emitted")
 
     # ---- C01-ORDER ---------------------------------------------------------------------------
     r = cx.rule("C01-ORDER", "statement and line lists only grow at the end (append/extend); node lists are walked forwards", floor=20)
